@@ -131,16 +131,42 @@ theorem ctzF_dvd (f d : Nat) : 2 ^ ctzF f d ∣ d := by
       have := ih (d / 2)
       simpa [← h2] using Nat.mul_dvd_mul_left 2 this
 
+theorem lt_pow_blenF (f d : Nat) (h : d < 2 ^ f) : d < 2 ^ blenF f d := by
+  induction f generalizing d with
+  | zero => simp [blenF]; simpa using h
+  | succ f ih =>
+    unfold blenF
+    split
+    · next h0 => subst h0; simp
+    · have : d / 2 < 2 ^ f := by rw [Nat.pow_succ] at h; omega
+      have := ih (d / 2) this
+      rw [Nat.pow_succ]; omega
+
+theorem blenF_le (f d : Nat) : blenF f d ≤ f := by
+  induction f generalizing d with
+  | zero => simp [blenF]
+  | succ f ih =>
+    unfold blenF
+    have := ih (d / 2)
+    split <;> omega
+
+theorem clz_facts {d : Nat} (h0 : d ≠ 0) (h64 : d < 2 ^ 64) : d < 2 ^ (64 - clz64 d) ∧ clz64 d ≤ 63 := by
+  have h1 := lt_pow_blenF 64 d h64
+  have h2 := blenF_le 64 d
+  have h3 : 1 ≤ blenF 64 d := by
+    show 1 ≤ blenF (63 + 1) d
+    unfold blenF; simp [h0]
+  unfold clz64
+  have : 64 - (64 - blenF 64 d) = blenF 64 d := by omega
+  rw [this]
+  exact ⟨h1, by omega⟩
+
 theorem clz_ctz_facts {d : Nat} (h0 : d ≠ 0) (h64 : d < 2 ^ 64) :
     d < 2 ^ (64 - clz64 d) ∧ clz64 d ≤ 63 ∧ 2 ^ ctz64 d ∣ d ∧ clz64 d + ctz64 d ≤ 63 := by
-  have hlog : d.log2 < 64 := (Nat.log2_lt h0).mpr h64
-  have hclz : clz64 d = 63 - d.log2 := by simp [clz64, h0]
+  obtain ⟨h1, h2⟩ := clz_facts h0 h64
   have hctz : ctz64 d = ctzF 64 d := by simp [ctz64, h0]
-  have h1 : d < 2 ^ (64 - clz64 d) := by
-    have : 64 - clz64 d = d.log2 + 1 := by omega
-    rw [this]; exact Nat.lt_log2_self
   have h3 : 2 ^ ctz64 d ∣ d := by rw [hctz]; exact ctzF_dvd 64 d
-  refine ⟨h1, by omega, h3, ?_⟩
+  refine ⟨h1, h2, h3, ?_⟩
   have hle : 2 ^ ctz64 d ≤ d := Nat.le_of_dvd (Nat.pos_of_ne_zero h0) h3
   have : 2 ^ ctz64 d < 2 ^ (64 - clz64 d) := Nat.lt_of_le_of_lt hle h1
   have := (Nat.pow_lt_pow_iff_right (by omega : 1 < 2)).mp this
